@@ -10,6 +10,7 @@ import (
 	"strings"
 	"sync"
 	"sync/atomic"
+	"syscall"
 	"time"
 
 	"github.com/uhppoted/uhppote-core/types"
@@ -313,6 +314,8 @@ func (e *c09Env) script(ep *farm.Endpoint, src net.Addr, req []byte, seq uint64)
 			out = append(out, farm.Action{Delay: time.Millisecond, Data: stray(i)})
 		}
 		return append(out, farm.Action{Data: reply})
+	case "empty-datagram":
+		return []farm.Action{{Data: []byte{}}} // a datagram of zero bytes: not a reply
 	case "tcp-stall":
 		return []farm.Action{{Stall: true}}
 	case "tcp-reset":
@@ -334,7 +337,8 @@ var c09Behaviours = []behaviour{
 	{"tcp-refused", "tcp", "error", 0, true}, {"udp-closed-port", "udp", "error", 0, true}, {"unreachable", "udp", "error", 0, true}, {"unreachable", "broadcast", "error", 0, true},
 	{"set-address", "udp", "success", 0, false}, {"set-address", "broadcast", "success", 0, false}, {"set-address", "tcp", "success", 0, false},
 	{"discovery", "broadcast", "success", 0.93, true},
-	{"set-address-closed-port", "udp", "success", 0, false}, // SetAddress is done once the request is out: nobody has to be listening
+	{"set-address-closed-port", "udp", "success", 0, false},                                           // SetAddress is done once the request is out: nobody has to be listening
+	{"empty-datagram", "udp", "error", 0, true}, {"empty-datagram", "broadcast", "error", 0.93, true}, // a zero-length datagram is no reply: an error, never a zero-valued result
 }
 
 var c09Flood = behaviour{"flood", "broadcast", "error", 0.93, true}
@@ -633,6 +637,13 @@ func c09(c *Ctx) {
 			}
 			e0.fm.Close()
 		}
+	}
+
+	// ---- phase 1a"': a TCP controller that is slow to take the connection (its first SYNs are lost) and then never answers: the
+	// time the connection took is part of the call's one timeout
+	if !only2 && !onlyFlood && c.Batch == 0 {
+		caseNo++
+		c09SlowConnect(c, caseNo, next())
 	}
 
 	// ---- phase 1a': a Listen that cannot bind its address fails - and leaves nothing behind
@@ -966,15 +977,50 @@ func c09ListenCycle(c *Ctx, i int) {
 		conn.Close()
 	}
 	time.Sleep(2 * time.Millisecond)
+	// every third cycle: datagrams keep arriving (one every millisecond, junk and events) while the listener is being stopped - and
+	// go on arriving until it has returned
+	stopFlood := make(chan struct{})
+	var flood sync.WaitGroup
+	if i%3 == 1 {
+		c.Res.Count("listen-cycles-stopped-under-continuing-traffic", 1)
+		flood.Add(1)
+		go func() {
+			defer flood.Done()
+			conn, err := net.Dial("udp4", addr)
+			if err != nil {
+				return
+			}
+			defer conn.Close()
+			ev := echoReply(append([]byte{0x17, 0x20, 0, 0, 9, 2, 3, 4}, make([]byte, 56)...))
+			for k := 0; ; k++ {
+				select {
+				case <-stopFlood:
+					return
+				default:
+				}
+				if k%2 == 0 {
+					conn.Write(ev)
+				} else {
+					conn.Write([]byte{1, 2, 3, byte(k)})
+				}
+				time.Sleep(time.Millisecond)
+			}
+		}()
+		time.Sleep(20 * time.Millisecond)
+	}
 	q <- os.Interrupt
 	c.Res.Eval(1)
 	select {
 	case err := <-done:
+		close(stopFlood)
+		flood.Wait()
 		if err != nil {
 			c.Res.Violate("C09:listen:stop-error", "Listen returned an error when stopped: "+err.Error(), nil, int64(i))
 		}
 	case <-time.After(5 * time.Second):
-		c.Res.Violate("C09:listen:hang", "Listen did not return within 5 s of the stop signal", nil, int64(i))
+		close(stopFlood)
+		flood.Wait()
+		c.Res.Violate("C09:listen:hang", fmt.Sprintf("Listen did not return within 5 s of the stop signal (datagrams still arriving: %v)", i%3 == 1), nil, int64(i))
 		return
 	}
 	// the socket must be gone: the address can be bound again at once
@@ -983,4 +1029,83 @@ func c09ListenCycle(c *Ctx, i int) {
 	} else {
 		pc.Close()
 	}
+}
+
+// c09SlowConnect: a listening socket with a backlog of zero whose one place in the accept queue is taken drops every further SYN.
+// The call's first SYN and its retransmission after 1 s are dropped; the place is then freed, and the second retransmission (3 s
+// into the call) connects - to a peer that never reads or answers. With T = 4 s the call must fail by T + slack: the deadline is
+// counted from the start of the call, not from the moment the connection stood.
+func c09SlowConnect(c *Ctx, caseNo int64, serial uint32) {
+	const T = 4 * time.Second
+	fd, err := syscall.Socket(syscall.AF_INET, syscall.SOCK_STREAM, 0)
+	if err != nil {
+		return
+	}
+	defer syscall.Close(fd)
+	if err := syscall.Bind(fd, &syscall.SockaddrInet4{Addr: [4]byte{127, 0, 0, 1}}); err != nil {
+		return
+	}
+	if err := syscall.Listen(fd, 0); err != nil {
+		return
+	}
+	sa, err := syscall.Getsockname(fd)
+	if err != nil {
+		return
+	}
+	port := sa.(*syscall.SockaddrInet4).Port
+	addr := fmt.Sprintf("127.0.0.1:%d", port)
+	// take the one place in the accept queue
+	filler, err := net.DialTimeout("tcp4", addr, time.Second)
+	if err != nil {
+		c.Res.Inconcl("slow-connect: cannot fill the accept queue: " + err.Error())
+		return
+	}
+	defer filler.Close()
+	// a probe: with the queue full a connect must not complete at once (otherwise this kernel does not drop the SYN and the scenario is void)
+	if probe, err := net.DialTimeout("tcp4", addr, 300*time.Millisecond); err == nil {
+		probe.Close()
+		c.Res.Count("slow-connect:kernel-does-not-drop-syn(scenario void)", 1)
+		return
+	}
+	u := mkClient(ClientCfg{Bind: bindIP + ":0", Broadcast: "127.0.0.1:1", Timeout: T, Devices: []DevCfg{{ID: serial, Addr: addr, Proto: "tcp"}}})
+	finish := make(chan struct{})
+	var acceptor sync.WaitGroup
+	acceptor.Add(1)
+	go func() {
+		defer acceptor.Done()
+		accepted := []int{}
+		time.Sleep(1300 * time.Millisecond)                // after the retransmission at 1 s has been dropped too
+		if nfd, _, err := syscall.Accept(fd); err == nil { // frees the place: the call's connection (SYN at 3 s) takes it, and is never read or answered
+			accepted = append(accepted, nfd)
+		}
+		<-finish
+		for _, nfd := range accepted {
+			syscall.Close(nfd)
+		}
+	}()
+	start := time.Now()
+	done := make(chan rm.Outcome, 1)
+	go func() {
+		out, _ := adapter.SafeCall(u, "GetEvent", serial, rm.Vals{"Index": rm.UVal(rm.U32, 7)}, adapter.Aux{})
+		done <- out
+	}()
+	c.Res.Eval(1)
+	c.Res.DistinctKey("slow-connect", "tcp")
+	c.Res.Count("behaviour:tcp-slow-connect-then-stall/tcp", 1)
+	select {
+	case out := <-done:
+		elapsed := time.Since(start)
+		w := map[string]any{"T_ms": T.Milliseconds(), "elapsed_ms": elapsed.Milliseconds(), "err": out.Err}
+		c.Res.Note("slow-connect", fmt.Sprintf("T=%v: the call returned after %v with %q", T, elapsed.Round(time.Millisecond), out.Err))
+		switch {
+		case out.Err == "":
+			c.Res.Violate("C09:tcp:tcp-slow-connect:unexpected-success", "a TCP peer that never answered: the call succeeded", w, caseNo)
+		case elapsed > T+1500*time.Millisecond:
+			c.Res.Violate("C09:tcp:tcp-slow-connect:late-return", fmt.Sprintf("TCP connection established only on the second SYN retransmission (about 3 s), peer never answers: the call returned after %v, the bound is T + 1.5 s (T=%v) - the time spent connecting is part of the timeout", elapsed.Round(time.Millisecond), T), w, caseNo)
+		}
+	case <-time.After(T + 10*time.Second):
+		c.Res.Violate("C09:tcp:tcp-slow-connect:hang", fmt.Sprintf("slow TCP connect then silence: the call did not return within T+10s (T=%v)", T), nil, caseNo)
+	}
+	close(finish)
+	acceptor.Wait()
 }
